@@ -493,7 +493,9 @@ func c11R6(p *core.Prog, r *core.Report) {
 			b, ok := phi.Type().Underlying().(*types.Basic)
 			return ok && b.Info()&types.IsInteger != 0
 		},
-		Track: func(x *core.X, a core.Atom) bool { return strings.Contains(a.L, "AofAckMode") || strings.Contains(a.L, "arbiterManager") },
+		Track: func(x *core.X, a core.Atom) bool {
+			return strings.Contains(a.L, "AofAckMode") || strings.Contains(a.L, "arbiterManager")
+		},
 		Instr: func(x *core.X) {
 			st, ok := x.Ins.(*ssa.Store)
 			if !ok {
